@@ -248,3 +248,44 @@ func Harness_C10_TwoPatches() {
 func HarnessT_C10_ThreePatches() {
 	c10Run(2, 1, 1, 3)
 }
+
+// Harness_C10_AlsoKnownAsOddEntries: a document reachable through a validated ietf-json-patch may hold entries in
+// alsoKnownAs that are not strings; add / remove-also-known-as still act as ordered set union / difference on the
+// URIs and never invent an entry (every entry of the result is a URI of the document or of the patch).
+func Harness_C10_AlsoKnownAsOddEntries() {
+	u1, u2, u3 := "https://aka.example/"+verifrt.AnyAtom("u1"), "https://aka.example/"+verifrt.AnyAtom("u2"), "https://aka.example/"+verifrt.AnyAtom("u3")
+	verifrt.Assume(u1 != u2 && u1 != u3 && u2 != u3)
+	odd := []interface{}{7.0, true, nil, map[string]interface{}{"x": "y"}}[verifrt.Choose("odd-entry", 4)]
+	doc := document.Document{"alsoKnownAs": [][]interface{}{{u1, odd, u2}, {odd, u1}, {u1, u2, odd}}[verifrt.Choose("odd-position", 3)]}
+	hasU2 := len(doc["alsoKnownAs"].([]interface{})) == 3
+	var p patch.Patch
+	var want []string
+	if verifrt.Choose("action", 2) == 0 {
+		p = patch.Patch{patch.ActionKey: patch.AddAlsoKnownAs, patch.UrisKey: []interface{}{u3, u1}}
+		want = []string{u1}
+		if hasU2 {
+			want = append(want, u2)
+		}
+		want = append(want, u3)
+	} else {
+		p = patch.Patch{patch.ActionKey: patch.RemoveAlsoKnownAs, patch.UrisKey: []interface{}{u1, u3}}
+		if hasU2 {
+			want = []string{u2}
+		}
+	}
+	res, err := New().ApplyPatches(doc, []patch.Patch{p})
+	if err != nil {
+		verifrt.Fail("a well-formed also-known-as patch fails to apply")
+		return
+	}
+	verifrt.Reach("applied")
+	got := listOf(res["alsoKnownAs"])
+	var uris []string
+	for _, e := range got {
+		if s, ok := e.(string); ok {
+			uris = append(uris, s)
+			verifrt.Assert(s == u1 || s == u2 || s == u3, "no URI is invented: every entry of the result comes from the document or the patch")
+		}
+	}
+	verifrt.Assert(verifrt.JSONEqual(strsToIface(uris), strsToIface(want)), "the URIs of the result are the ordered set union / difference")
+}
